@@ -251,9 +251,11 @@ def _pyvc_clauses():
 MANIFEST = {
     'engine': 'pyvc+rtc',
     'technique': ('contract-based deductive: VCs from the real source of linear_interp_with_linear_extrap, _dot_interp and _extrapolate_* in 1-d array mode (symbolic node count, '
-                  'all real queries; z3) -- two-point formula, affine exactness, node values, neighbour bounds, documented extrapolation; bounded run-time twins: weight vectors '
+                  'all real queries; z3) -- two-point formula, affine exactness, node values, neighbour bounds, documented extrapolation; _linear_interp_with_safe_extrap (1 and 2 cells: interpolant inside, '
+                  'linear continuation, missing beyond) and the default path of interp against the documented contract of jnp.interp, whose increasing-nodes precondition is discharged at each call; bounded run-time twins: weight vectors '
                   'against an independent loop specification, sigma<->pressure conversions, horizontal regridders'),
     'text': ('other: the interpolation kernels (including the accelerator path _dot_interp that the CPU suite never executes) are proved for every node count, strictly increasing '
-             'node set and real query (floats as reals); jnp.interp, the safe-extrapolation wrapper, the coordinate conversions and the horizontal regridders are bounded (enumerated).'),
-    'note': 'trusted: the loop specification spec_weights (written from the documentation); jnp.interp; A1/A2.',
+             'node set and real query (floats as reals), the safe-extrapolation wrapper and the default interp path likewise modulo the library contract of jnp.interp (A8); the coordinate conversions '
+             'and the horizontal regridders are bounded (enumerated).'),
+    'note': 'trusted: the loop specification spec_weights (written from the documentation); the documented contract of jnp.interp (two-point formula inside, left/right outside, increasing nodes required); np.nan as a distinguished constant; A1/A2.',
 }
